@@ -253,6 +253,13 @@ func vxDrawValue(t *rapid.T, ty *cqlspec.Type, nullable bool, proto int) cqlspec
 	case cqlspec.Text, cqlspec.Varchar:
 		return cqlspec.BytesValue([]byte(rapid.OneOf(rapid.String(), rapid.StringN(0, 3, -1), rapid.Just("")).Draw(t, "text")))
 	case cqlspec.Blob:
+		if rapid.IntRange(0, 60).Draw(t, "bigblob") == 0 {
+			// around the 16-bit length boundaries of the v1-2 collection framing
+			n := rapid.SampledFrom([]int{255, 256, 32767, 32768, 40000, 65535}).Draw(t, "biglen")
+			b := make([]byte, n)
+			b[0], b[n-1] = rapid.Byte().Draw(t, "b0"), rapid.Byte().Draw(t, "bn")
+			return cqlspec.BytesValue(b)
+		}
 		return cqlspec.BytesValue(vxDrawBytes(t, 70))
 	case cqlspec.Boolean:
 		return cqlspec.Value{Bool: rapid.Bool().Draw(t, "bool")}
@@ -345,6 +352,15 @@ func vxDrawValue(t *rapid.T, ty *cqlspec.Type, nullable bool, proto int) cqlspec
 		return v
 	case cqlspec.List, cqlspec.Set:
 		n := rapid.IntRange(0, 4).Draw(t, "n")
+		if ty.Kind == cqlspec.List && ty.Elems[0].Kind == cqlspec.Tinyint && rapid.IntRange(0, 50).Draw(t, "manyelems") == 0 {
+			// element counts around the 16-bit boundaries
+			m := rapid.SampledFrom([]int{255, 256, 32767, 32768, 65535}).Draw(t, "count")
+			out := cqlspec.Value{Elems: make([]cqlspec.Value, m)}
+			for i := range out.Elems {
+				out.Elems[i] = cqlspec.I64Value(int64(int8(i)))
+			}
+			return out
+		}
 		out := cqlspec.Value{Elems: []cqlspec.Value{}}
 		seen := map[string]bool{}
 		for i := 0; i < n; i++ {
